@@ -1609,3 +1609,52 @@ Section CtlProofs.
     split; auto. unfold final. rewrite Hv. reflexivity.
   Qed.
 End CtlProofs.
+
+(** * rule export -> import is the identity on every valid setting, boundary values included *)
+Section RuleProofs.
+  Variable V : Type.
+  Variable ltb : V -> V -> bool.
+  Variable truthy : V -> bool.
+  Variable dlower dupper : V.
+
+  (** a numeric Var has lower <= value <= upper (assign_all only ever builds such settings);
+      a non-scalar parameter has no bounds *)
+  Definition valid_setting (numeric : bool) (s : setting V) : Prop :=
+    match s with
+    | SConst _ _ => True
+    | SVar _ l v u => numeric = true /\ ltb u l = false /\ ltb v l = false /\ ltb u v = false
+    | SNVar _ _ => numeric = false
+    end.
+
+  Theorem import_export_id : forall numeric c s,
+    valid_setting numeric s ->
+    import V ltb truthy dlower dupper numeric c (export V s) = ROk V s.
+  Proof.
+    intros numeric c s Hv. destruct s as [v|l v u|v]; simpl in *.
+    - unfold import, assign_setting. simpl. reflexivity.
+    - destruct Hv as [-> [H1 [H2 H3]]]. unfold import, assign_setting. simpl.
+      destruct (cur_bounds V dlower dupper c) as [cl cu]. simpl. rewrite H1, H2, H3. reflexivity.
+    - subst numeric. unfold import, assign_setting. simpl. reflexivity.
+  Qed.
+
+  (** the export never drops a key, whatever the value (0.0 included) *)
+  Theorem export_keys : forall s,
+    rule_keys V (export V s) =
+    match s with
+    | SConst _ _ => [true; true; false; false; false]
+    | SVar _ _ _ _ => [false; false; true; true; true]
+    | SNVar _ _ => [false; false; true; false; false]
+    end.
+  Proof. destruct s; reflexivity. Qed.
+
+  (** what goes wrong when a falsy init is dropped from the exported rule (the
+      `if v` filter): the import keeps the TARGET's current value *)
+  Theorem dropped_init_keeps_target_value : forall c l u,
+    ltb u l = false -> ltb (cur_value V c) l = false -> ltb u (cur_value V c) = false ->
+    import V ltb truthy dlower dupper true c (mk_rule V None false None (Some l) (Some u)) = ROk V (SVar V l (cur_value V c) u).
+  Proof.
+    intros c l u H1 H2 H3. unfold import, assign_setting. simpl.
+    destruct (cur_bounds V dlower dupper c) as [cl cu]. simpl. rewrite H1, H2, H3. reflexivity.
+  Qed.
+End RuleProofs.
+
